@@ -98,7 +98,7 @@ Definition show_outcome (md : module_ir) (off : N) (r : res rval) : string :=
   | Fuel => "FUEL"
   end.
 
-Definition fuel_for (bs : bytes) : nat := (4 * List.length bs + 64)%nat.
+Definition fuel_for (bs : bytes) : nat := (4 * List.length bs + 64 + 50 * 100)%nat.
 
 Definition run_case (md : module_ir) (ty : string) (off : N) (bs : bytes) : string :=
   show_outcome md off (dec md (fuel_for bs) ty (init_state off bs)).
